@@ -607,6 +607,28 @@ func (c *Ctx) checkCallRoles() {
 		r.Check(ok1 && c1[0] > 0, "C15.5b-callee-only", construct+" / not from the originating session", c.pos(s), "", "ringing/accept from the originating session is forwarded")
 		r.Check(ok2 && c2[0] > 0, "C15.5b-callee-only", construct+" / not from the originating user", c.pos(s), "", "ringing/accept from another session of the caller is accepted: the caller can accept its own call")
 	}
+	// offer/answer/candidate only from a party *session*: the forward under len(parties)==2 is behind
+	// a successful lookup of the sender's session id in the party table (a second device of a party
+	// is not a party)
+	nMeta := 0
+	for i, s := range sinks {
+		if ok, cnt := core.GuardedBy(h, s, lenParties(2, true)); !(ok && cnt[0] > 0) {
+			continue
+		}
+		nMeta++
+		gParty := core.BoolGuard("parties[sender.sid] found", func(v ssa.Value) bool {
+			ex, ok := v.(*ssa.Extract)
+			if !ok || ex.Index != 1 {
+				return false
+			}
+			lk, ok := ex.Tuple.(*ssa.Lookup)
+			return ok && core.IsFieldLoad(partiesF)(lk.X) && core.IsFieldLoad(sidF)(lk.Index)
+		}, true)
+		ok, cnt := core.GuardedBy(h, s, gParty)
+		r.Check(ok && cnt[0] > 0, "C15.5c-metadata-from-party-session", fmt.Sprintf("%s: forward #%d (offer/answer/candidate) / sender's session is a call party", fk(h), i+1), c.pos(s), "",
+			"call metadata is forwarded without looking the sending session up in the party table: another session of a party (a second device that never joined the call) can inject offers, answers and ICE candidates into the call")
+	}
+	r.Check(nMeta >= 1, "C15.5c-metadata-from-party-session", fk(h)+": forwards of call metadata under len(parties)==2", "-", fmt.Sprintf("%d", nMeta), "none: anchor lost")
 }
 
 func isUidValue(v ssa.Value) bool {
